@@ -35,7 +35,7 @@ theorem demo_ok : demo.ok := by
     · exact ⟨_, _, rfl, by rfl⟩
     · exact ⟨_, _, rfl, by rfl⟩
     · exact ⟨_, _, rfl, by rfl⟩
-  refine ⟨⟨hx.1, hx.2.1⟩, ⟨by decide, hx, by simp, by simp⟩, hg, ⟨⟨hx.1, hx.2.1⟩, ⟨by decide, hx, ?_, by simp⟩, trivial⟩,
+  refine ⟨⟨hx.1, hx.2.1⟩, ⟨by decide, hx, by simp, by simp⟩, hg, ⟨⟨hx.1, hx.2.1⟩, ⟨by decide, hx, ?_, by simp, by simp [reservedAttrNames]⟩, trivial⟩,
     ⟨by decide, ha, by simp, by simp⟩, trivial⟩
   intro a hm
   simp only [List.mem_cons, List.not_mem_nil, or_false] at hm
